@@ -426,6 +426,8 @@ def w3(ctx, F):
                 it = sym(ln["e"])
                 if it[:1] == ("call",) and str(it[1]).endswith("IntoIterator::into_iter") and it[2]:
                     it = it[2][0]
+                if it[:1] == ("call",) and str(it[1]).endswith("RangeInclusive::<Idx>::new") and len(it[2]) == 2:
+                    it = ("struct", "std::ops::RangeInclusive", (("start", it[2][0]), ("end", it[2][1])))
                 if it[:1] == ("struct",) and str(it[1]).endswith(("ops::Range", "ops::RangeInclusive")):
                     d_ = dict(it[2])
                     for d in sorted(digits_ok):
@@ -640,6 +642,25 @@ def w6(ctx, F):
     if n_k:
         ctx.check("C17.W6", "king-squares-recorded-for-kings-only", not bad, fn=NEW, file=fn["file"],
                   what="the importer remembers a king's square for a piece that is not that side's king, or not for the king", found=bad[:4])
+    # ... and the game is built with (white king's square, black king's square), each taken from its own remembered square
+    kp_ok = None
+    for n, _ in hir.walk(body):
+        if n.get("k") == "Struct" and (n["to"].get("path") or "").endswith("chess::Game"):
+            for f_ in n["fields"]:
+                if f_["name"] == "king_positions":
+                    symT = hir.Sym(env, F, through=True)
+                    v = symT(f_["e"])
+                    txt = hir.fmt(v, 200)
+                    kp_ok = v[:1] == ("arr",) and len(v) == 3 and "white_king_pos" in hir.fmt(v[1], 120) and "black_king_pos" not in hir.fmt(v[1], 120) \
+                        and "black_king_pos" in hir.fmt(v[2], 120) and "white_king_pos" not in hir.fmt(v[2], 120)
+    if kp_ok is not None:
+        ctx.check("C17.W6", "king-cache-built-from-each-side's-own-square", kp_ok, fn=NEW, file=fn["file"],
+                  what="the king cache of the imported game is not [white king's square, black king's square]", found=kp_ok)
+    # each required king is unwrapped from its own square (`let Some(white_king_pos) = black_king_pos` would pass a count of two)
+    own = all((hir.pat_names(l["pat"]) or ["?"])[0].split("'")[0] == hir.fmt(sym(l["init"]), 60) for l in kings) and \
+        {hir.fmt(sym(l["init"]), 60) for l in kings} == {"white_king_pos", "black_king_pos"} if len(kings) == 2 else True
+    ctx.check("C17.W6", "each-king-unwrapped-from-its-own-square", own, fn=NEW, file=fn["file"],
+              what="a required king's square is taken from the other side's remembered square", found=[(hir.pat_names(l["pat"]), hir.fmt(sym(l["init"]), 40)) for l in kings])
     ctx.check("C17.W6", "both-kings-required", len(kings) == 2, fn=NEW, file=fn["file"],
               what="a position without one of the kings must be refused (the king cache would be undefined)", found=len(kings))
     # result type is a Result and no unwrap/expect/panic syntax in the importer itself
